@@ -27,7 +27,7 @@ func VerifNewGranularityHandler(bufferImageGranularity uint, blockSize int) meta
 
 // VerifGranularityRegions returns (allocType, allocCount) for every granularity page tracked by
 // a handler created with VerifNewGranularityHandler.
-func VerifGranularityRegions(h metadata.GranularityCheck) (types []uint32, counts []uint16) {
+func VerifGranularityRegions(h metadata.GranularityCheck) (types []uint32, counts []uint32) {
 	g, ok := h.(*blockBufferImageGranularity)
 	if !ok {
 		return nil, nil
